@@ -46,6 +46,17 @@ PROBES = [
     ("undefined-after-define", [("p.mac", "v = 10\n.word v, w\n")]),
 ]
 
+_WSRC = "word 1\n clr @r1\n emt #1\n clr @(r2)\n.byte\n br 1+2\n1: nop\nmov: nop\n.word 'a'\n nop nop\n.list\n"
+CLI_PROBES = [
+    ("w-all-but-one", _WSRC, ["-Wall", "-Wno-meta-typo", "--report-format", "bare"]),
+    ("w-none-but-two", _WSRC, ["-Wno-all", "-Wmeta-typo", "-Wlegacy-deferred", "--report-format", "bare"]),
+    ("w-one-then-all", _WSRC, ["-Wno-meta-typo", "-Wall", "--report-format", "bare"]),
+    ("w-many", _WSRC, ["-Wall", "-Wno-all", "-Wdefault", "-Wno-excess-hash", "-Wexcess-hash", "-Wno-default", "-Wimplicit-index", "--report-format", "bare"]),
+    ("w-classes", _WSRC, ["-Wno-default", "-Wall", "-Wno-label-fixup", "-Wno-not-implemented", "-Wdefault"]),
+    ("lst", "".join(f"s{i}q = {(i * 7919) % 64}\nl{i}q: .word s{i}q\n" for i in range(40)), ["-o", "x.bin", "--lst"]),
+    ("errors", "a1 = nosuch1\nzz9 = nosuch2\nm5 = 1 << q\nq = 0-1\nb2 = nosuch3 + 1\n nop\n", ["-o", "x.bin", "--report-format", "bare"]),
+]
+
 CRASHERS = [
     ".word 2.<<177777\n",                       # astronomic integer -> ValueError while formatting
     ".align 167210<<.\n",                       # OverflowError
@@ -212,6 +223,32 @@ def run_shard(spec):
             cnt["quiescent_points_checked"] += 1
             if r["leaks"]:
                 res["violations"].append({"what": f"module state not at rest after a fresh run of probe {name}: {r['leaks']}", "case": {"history": [], "probes": [name], "hashseed": spec["hashseed"]}})
+        # the command line itself (option handling, listing, report formats) under this shard's hash seed: same sources and options in a
+        # fresh forked child; printed diagnostics (paths made relative), exit status and every written file are compared across seeds
+        if spec["part"] % 2 == 0:
+            from vlib import cli
+            import pdpy11._cli  # noqa: F401  pylint: disable=unused-import
+            for name, text, opts in CLI_PROBES:
+                work = tempfile.mkdtemp(prefix="cli-", dir=root)
+                scratch = tempfile.mkdtemp(prefix="clis-", dir=root)
+                with open(os.path.join(work, "p.mac"), "w", encoding="utf-8") as f:
+                    f.write(text)
+                r = cli.run_cli(["p.mac"] + opts, work, scratch, timeout=120, tag="h")
+                if r["stall"]:
+                    continue
+                files = {}
+                for rel in sorted(r["diff"]["created"] + r["diff"]["modified"]):
+                    fp = os.path.join(work, rel)
+                    if os.path.isfile(fp):
+                        with open(fp, "rb") as f:
+                            files[rel] = hashlib.sha1(f.read()).hexdigest()[:12]
+                printed = (r["stdout"] + b"\n--\n" + r["stderr"]).decode("utf-8", "replace").replace(work, "@W@")
+                obs = {"exit": r["exit"], "printed": printed, "files": files}
+                h = hashlib.sha1(json.dumps(obs, sort_keys=True).encode()).hexdigest()[:12]
+                res["sets"]["fresh_obs"].append(f"cli:{name}|{h}")
+                cnt["cli_probes"] = cnt.get("cli_probes", 0) + 1
+                shutil.rmtree(work, ignore_errors=True)
+                shutil.rmtree(scratch, ignore_errors=True)
         maxlen = 12 if spec["tier"] == "quick" else 50
         for i in range(spec["count"]):
             history = gen_history(rnd, maxlen, root)
